@@ -22,8 +22,10 @@ Rec == ndJsonDeserialize(IOEnv.TRACE)
 VARIABLES l, run, conf, acc, inflight, naccepted, nconfirmed, segs, man, gcBefore, overlap, fActive, cActive, accTombs,
           segc,   \* segment id -> its content as key -> RV (merge of the segment's deltas per key), when it was logged
           cin,    \* ids of the segments the compaction in progress has read
-          gcOut   \* keys whose expired tombstone a compaction dropped while a manifest segment it did not read held the key
-tvars == <<l, run, conf, acc, inflight, naccepted, nconfirmed, segs, man, gcBefore, overlap, fActive, cActive, accTombs, segc, cin, gcOut>>
+          gcOut,  \* keys whose expired tombstone a compaction dropped while a manifest segment it did not read held the key
+          rc      \* bookkeeping for the listed manifest race: [saves: manifest saves so far, loaded: actor -> saves at its last manifest
+                  \* load, puts: segment id -> the actor that wrote it]; `overlap' is set only when the race really happens
+tvars == <<l, run, conf, acc, inflight, naccepted, nconfirmed, segs, man, gcBefore, overlap, fActive, cActive, accTombs, segc, cin, gcOut, rc>>
 
 Dev(d) == d \in AsBuilt
 Verdict(what) == PrintT(<<"VERDICT", ToJson([run |-> run, l |-> l, v |-> "bad", what |-> what])>>)
@@ -38,6 +40,7 @@ MergeAll(f, g) == [k \in DOMAIN f \cup DOMAIN g |->
 TraceInit == /\ l = 1 /\ run = 0 /\ conf = NoFun /\ acc = NoFun /\ inflight = NoFun
              /\ naccepted = 0 /\ nconfirmed = 0 /\ segs = NoFun /\ man = {} /\ gcBefore = 0
              /\ overlap = FALSE /\ fActive = FALSE /\ cActive = FALSE /\ accTombs = NoFun /\ segc = NoFun /\ cin = {} /\ gcOut = {}
+             /\ rc = [saves |-> 0, loaded |-> NoFun, puts |-> NoFun]
 
 Keep(vs) == UNCHANGED vs
 
@@ -76,7 +79,7 @@ Step(ev) ==
   \/ /\ ev.a = "reset"
      /\ run' = ev.run /\ conf' = NoFun /\ acc' = NoFun /\ inflight' = NoFun /\ naccepted' = 0 /\ nconfirmed' = 0
      /\ segs' = NoFun /\ man' = {} /\ gcBefore' = 0 /\ overlap' = FALSE /\ fActive' = FALSE /\ cActive' = FALSE
-     /\ accTombs' = NoFun /\ segc' = NoFun /\ cin' = {} /\ gcOut' = {}
+     /\ accTombs' = NoFun /\ segc' = NoFun /\ cin' = {} /\ gcOut' = {} /\ rc' = [saves |-> 0, loaded |-> NoFun, puts |-> NoFun]
   \/ /\ ev.a = "push"
      /\ IF ev.ok THEN /\ acc' = MergeInto(acc, ev.k, JRv(ev.rv))
                       /\ inflight' = MergeInto(inflight, ev.k, JRv(ev.rv))
@@ -85,28 +88,28 @@ Step(ev) ==
                                       THEN Upd(accTombs, ev.k, (IF ev.k \in DOMAIN accTombs THEN accTombs[ev.k] ELSE {}) \cup {JRv(ev.rv).ts})
                                       ELSE accTombs
         ELSE UNCHANGED <<acc, inflight, naccepted, accTombs>>
-     /\ Keep(<<run, conf, nconfirmed, segs, man, gcBefore, overlap, fActive, cActive, segc, cin, gcOut>>)
+     /\ Keep(<<run, conf, nconfirmed, segs, man, gcBefore, overlap, fActive, cActive, segc, cin, gcOut, rc>>)
   \/ /\ ev.a = "flush_begin"
-     /\ fActive' = TRUE /\ overlap' = (overlap \/ cActive)
-     /\ Keep(<<run, conf, acc, inflight, naccepted, nconfirmed, segs, man, gcBefore, cActive, accTombs, segc, cin, gcOut>>)
+     /\ fActive' = TRUE /\ overlap' = overlap
+     /\ Keep(<<run, conf, acc, inflight, naccepted, nconfirmed, segs, man, gcBefore, cActive, accTombs, segc, cin, gcOut, rc>>)
   \/ /\ ev.a = "flush_end"
      /\ fActive' = FALSE
      /\ IF ev.ok THEN /\ conf' = MergeAll(conf, inflight) /\ inflight' = NoFun /\ nconfirmed' = naccepted
                       /\ (ev.pending # 0 => Verdict("flush ok but deltas still pending"))
         ELSE /\ UNCHANGED <<conf, inflight, nconfirmed>>
              /\ (ev.pending # naccepted - nconfirmed => Verdict("failed flush silently dropped accepted deltas"))
-     /\ Keep(<<run, acc, naccepted, segs, man, gcBefore, overlap, cActive, accTombs, segc, cin, gcOut>>)
+     /\ Keep(<<run, acc, naccepted, segs, man, gcBefore, overlap, cActive, accTombs, segc, cin, gcOut, rc>>)
   \/ /\ ev.a = "shutdown"     \* the pipeline (sink -> bridge -> actor) was shut down gracefully; clean: no fault was injected in the run
      /\ IF ev.clean THEN conf' = MergeAll(conf, inflight) /\ inflight' = NoFun /\ nconfirmed' = naccepted
         ELSE UNCHANGED <<conf, inflight, nconfirmed>>
-     /\ Keep(<<run, acc, naccepted, segs, man, gcBefore, overlap, fActive, cActive, accTombs, segc, cin, gcOut>>)
+     /\ Keep(<<run, acc, naccepted, segs, man, gcBefore, overlap, fActive, cActive, accTombs, segc, cin, gcOut, rc>>)
   \/ /\ ev.a = "compact_begin"
-     /\ cActive' = TRUE /\ overlap' = (overlap \/ fActive)
+     /\ cActive' = TRUE /\ overlap' = overlap
      /\ gcBefore' = IF ev.gc_before > gcBefore THEN ev.gc_before ELSE gcBefore
-     /\ cin' = {} /\ Keep(<<run, conf, acc, inflight, naccepted, nconfirmed, segs, man, fActive, accTombs, segc, gcOut>>)
+     /\ cin' = {} /\ Keep(<<run, conf, acc, inflight, naccepted, nconfirmed, segs, man, fActive, accTombs, segc, gcOut, rc>>)
   \/ /\ ev.a = "compact_end"
      /\ cActive' = FALSE
-     /\ Keep(<<run, conf, acc, inflight, naccepted, nconfirmed, segs, man, gcBefore, overlap, fActive, accTombs, segc, cin, gcOut>>)
+     /\ Keep(<<run, conf, acc, inflight, naccepted, nconfirmed, segs, man, gcBefore, overlap, fActive, accTombs, segc, cin, gcOut, rc>>)
   \/ /\ ev.a = "call"
      /\ segs' = IF ev.op = "put" /\ ev.kind = "seg" /\ ev.res # "fail"
                   THEN Upd(segs, ev.id, IF ev.res = "ok" THEN "ok" ELSE "partial")
@@ -124,7 +127,20 @@ Step(ev) ==
                  THEN gcOut \cup {k \in DOMAIN MergeSegs(cin, NoFun) \ DOMAIN SegContent(ev.deltas) :
                                    \E i \in (man \ cin) \cap DOMAIN segc : k \in DOMAIN segc[i]}
                  ELSE gcOut
-     /\ Keep(<<run, conf, acc, inflight, naccepted, nconfirmed, gcBefore, overlap, fActive, cActive, accTombs>>)
+     (* the listed race (no compare-and-set on the manifest, segment ids allocated from stale copies) has happened when somebody   *)
+     (* saves a manifest it loaded before somebody else's save, or writes a segment key the other one has written (either can only  *)
+     (* happen when a flush and a compaction overlapped); overlapping alone explains nothing                                        *)
+     /\ LET isSave == (ev.op = "rename" /\ ev.res \in {"ok", "applied"}) \/ (ev.op = "put" /\ ev.kind = "man" /\ ev.res = "ok" /\ "segs" \in DOMAIN ev)
+            isLoad == ev.op = "get" /\ ev.kind = "man" /\ ev.res = "ok"
+            isPut == ev.op = "put" /\ ev.kind = "seg" /\ ev.res # "fail"
+            loadedOf == IF ev.who \in DOMAIN rc.loaded THEN rc.loaded[ev.who] ELSE 0
+            stale == isSave /\ loadedOf < rc.saves
+            dbl == isPut /\ ev.id \in DOMAIN rc.puts /\ rc.puts[ev.id] # ev.who
+        IN /\ rc' = [saves |-> rc.saves + (IF isSave THEN 1 ELSE 0),
+                      loaded |-> IF isLoad THEN Upd(rc.loaded, ev.who, rc.saves) ELSE rc.loaded,
+                      puts |-> IF isPut THEN Upd(rc.puts, ev.id, ev.who) ELSE rc.puts]
+           /\ overlap' = (overlap \/ stale \/ dbl)
+     /\ Keep(<<run, conf, acc, inflight, naccepted, nconfirmed, gcBefore, fActive, cActive, accTombs>>)
   \/ /\ ev.a = "crashcheck"
      /\ IF Tolerated THEN TRUE
         ELSE IF ~ev.ok THEN Verdict("recovery fails on the crash image")
@@ -132,14 +148,14 @@ Step(ev) ==
         ELSE IF ~CrashOk(ev) THEN Verdict(IF "final" \in DOMAIN ev THEN "extension: after a graceful shutdown of the persistence pipeline an update that was sent is not recoverable (or data was invented)"
                                           ELSE "recovered state loses confirmed data or invents data")
         ELSE TRUE
-     /\ Keep(<<run, conf, acc, inflight, naccepted, nconfirmed, segs, man, gcBefore, overlap, fActive, cActive, accTombs, segc, cin, gcOut>>)
+     /\ Keep(<<run, conf, acc, inflight, naccepted, nconfirmed, segs, man, gcBefore, overlap, fActive, cActive, accTombs, segc, cin, gcOut, rc>>)
   \/ /\ ev.a = "panic"
      /\ Verdict("panic in code under test")
-     /\ Keep(<<run, conf, acc, inflight, naccepted, nconfirmed, segs, man, gcBefore, overlap, fActive, cActive, accTombs, segc, cin, gcOut>>)
+     /\ Keep(<<run, conf, acc, inflight, naccepted, nconfirmed, segs, man, gcBefore, overlap, fActive, cActive, accTombs, segc, cin, gcOut, rc>>)
 
 TraceNext ==
   \/ l <= Len(Rec) /\ Step(Rec[l]) /\ l' = l + 1
   \/ l = Len(Rec) + 1 /\ PrintT(<<"VALIDATED", Len(Rec)>>) /\ l' = l + 1
-     /\ Keep(<<run, conf, acc, inflight, naccepted, nconfirmed, segs, man, gcBefore, overlap, fActive, cActive, accTombs, segc, cin, gcOut>>)
+     /\ Keep(<<run, conf, acc, inflight, naccepted, nconfirmed, segs, man, gcBefore, overlap, fActive, cActive, accTombs, segc, cin, gcOut, rc>>)
 TraceSpec == TraceInit /\ [][TraceNext]_tvars
 =============================================================================
